@@ -41,7 +41,21 @@ def is_parser_term(t):
         t = t[1]
     if t[0] == "agg" and t[1].startswith("adt:konst::parsing::Parser::Parser"):
         return True
+    if t[0] == "call" and t[1] in METHOD_LAW and len(t) > 3:
+        return True          # the result of another Parser method (composition); its law comes from that method's own row
     return t[0] in ("p", "L")
+
+
+# laws of Parser -> Parser methods that cannot be inlined (they loop): filled by the first round of run()
+#   'front': str is a suffix cut of the receiver's, start_offset advances by the length difference
+#   'back' : str is a prefix cut, start_offset unchanged
+METHOD_LAW = {}
+PARSER_FIELDS = {}
+
+
+def _returns_parser(b):
+    o = b.rec.get("sig_output", "")
+    return o.startswith(("parsing::Parser<", "konst::parsing::Parser<")) or o in ("Self",)
 
 
 def find_results(t):
@@ -76,6 +90,14 @@ def adv_pairs(off, old_off):
     def walk(t):
         if t == old_off:
             return True
+        if t[0] == "field" and t[1][0] == "call" and t[2] == PARSER_FIELDS.get("start_offset") and METHOD_LAW.get(t[1][1]) and len(t[1]) > 3:
+            c = t[1]
+            recv_off = sym.mk_field(c[3], PARSER_FIELDS["start_offset"])
+            if walk(recv_off):
+                if METHOD_LAW[c[1]] == "front":
+                    items.append(("bin", "Sub", ("len", sym.mk_field(c[3], PARSER_FIELDS["str"])), ("len", ("field", c, PARSER_FIELDS["str"]))))
+                return True
+            return False
         if t[0] == "bin" and t[1] == "Add":
             a, b = t[2], t[3]
             if walk(a):
@@ -147,6 +169,9 @@ class CutWalker:
 
     def _call_kind(self, call, projs):
         path = call[1]
+        law = METHOD_LAW.get(path)
+        if law and projs == [(None, PARSER_FIELDS.get("str"))] and len(call) > 3:
+            return (prov.SUFFIX if law == "front" else prov.PREFIX), sym.mk_field(call[3], PARSER_FIELDS["str"])
         c = self.prog.by_key.get(path, [])
         if len(c) != 1 or len(call) < 4:
             return None
@@ -176,7 +201,12 @@ def run(ctx):
             ctx.violation("ANCHOR", cfg + "|Parser", "struct konst::parsing::Parser with fields parse_direction/start_offset/str not found")
             continue
         pv = prov.Prov(prog)
+        PARSER_FIELDS.clear()
+        PARSER_FIELDS.update(F)
+        METHOD_LAW.clear()
         methods = parser_methods(prog)
+        # methods that loop and return a Parser directly (skip, skip_back) first: other methods may be written in terms of them
+        methods = sorted(methods, key=lambda m: 0 if (m.loops() and _returns_parser(m)) else 1)
         inline = {b.key for b in methods if not b.loops()} | {
             "konst::parsing::parse_errors::ParseError::new", "konst::parsing::parse_errors::ParseError::other_error"}
         inline_no_err = {b.key for b in methods if not b.loops()}
@@ -197,10 +227,18 @@ def run(ctx):
             old_off = sym.mk_field(old, F["start_offset"])
             n_ok = n_err = 0
             dirs_ok = set()
+            kinds_seen = set()
+            clean = True
             for p in paths:
                 if p.kind != "return":
                     continue
-                for role, t in find_results(p.value):
+                res = find_results(p.value)
+                if not any(r == "ok" for r, _ in res) and not (p.value[0] == "agg" and p.value[1].endswith("Result::Err#1")) \
+                        and p.value not in (("p", 1), ("deref", ("p", 1))):          # (returning the receiver itself: copy/clone)
+                    clean = False
+                    ctx.violation("TS-OFFSET", "%s|%s|provenance" % (cfg, name),
+                                  "%s: the returned value %s contains no recognisable Parser" % (name, show(p.value)[:300]), b.file())
+                for role, t in res:
                     if role == "ok":
                         n_ok += 1
                         ns = sym.mk_field(t, F["str"])
@@ -223,6 +261,7 @@ def run(ctx):
                                           "%s: cannot relate the new remainder %s to the old one by prefix/suffix cuts" % (name, show(ns)), b.file())
                             continue
                         kinds = [k for k, _, _ in chain]
+                        kinds_seen |= set(kinds)
                         if prov.MIDDLE in kinds:
                             ctx.violation("TS-OFFSET", "%s|%s|middle-cut" % (cfg, name),
                                           "%s: the remainder is cut on both sides in one step (%s) and start_offset is updated by a "
@@ -277,6 +316,12 @@ def run(ctx):
                 ctx.violation("TS-DIR", "%s|%s|err-dir" % (cfg, name),
                               "%s: success paths set direction %s but errors report %s" % (
                                   name, sorted(DIRS.get(d) for d in okd), sorted(DIRS.get(d) for d in errd)), b.file())
+            if b.loops() and _returns_parser(b) and self_is_parser and n_ok and clean \
+                    and not any(v["key"].startswith("TS-OFFSET|%s|%s|" % (cfg, name)) for v in ctx.violations):
+                if kinds_seen <= {prov.SUFFIX}:
+                    METHOD_LAW[b.key] = "front"
+                elif kinds_seen <= {prov.PREFIX}:
+                    METHOD_LAW[b.key] = "back"
             ctx.instance("TS-OFFSET", "%s|%s" % (cfg, name), nontrivial=n_ok > 0,
                          sample={"method": name, "ok_paths": n_ok, "err_paths": n_err, "paths": len(paths)})
         error_tables(ctx, prog, F)
